@@ -9,8 +9,8 @@ na = json.load(open(na_path)) if os.path.exists(na_path) else {}
 allids = [json.loads(l)["id"] for l in open(os.path.join(ROOT, "properties.jsonl"))]
 checks = []
 for pid in allids:
-    if pid not in props or props[pid].get("disabled"):
-        continue
+    if pid not in props or props[pid].get("disabled") or not props[pid].get("ready"):
+        continue  # only checks the coordinator has verified green on the unchanged tree are registered
     c = props[pid]
     checks.append({
         "property_id": pid,
